@@ -76,12 +76,12 @@ def main(argv):
             result["demo_output"] = out1.strip().splitlines()[-3:]
         with ThreadPoolExecutor(max_workers=12) as ex:
             outs = list(ex.map(lambda p: run_check(p, root, tier), props))
-        result["alarms"] = {p: d[:3] for p, rc, d, e in outs if rc == 1}
-        result["errors"] = {p: e for p, rc, d, e in outs if rc == 2}
+        result["alarms"] = {p: [l[:600] for l in d[:3]] for p, rc, d, e in outs if rc == 1}
+        result["errors"] = {p: [l[:400] for l in e[:2]] for p, rc, d, e in outs if rc == 2}
         result["silent"] = [p for p, rc, d, e in outs if rc == 0]
     finally:
         shutil.rmtree(root, ignore_errors=True)
-    print(json.dumps(result, indent=1)[:6000])
+    print(json.dumps(result, indent=1))
     return 0
 
 
